@@ -1077,7 +1077,23 @@ def judgeC18 (o : Obs) : Verdict :=
     fail (e.tag == "pyend" && arg e 0 == 1 && arg e 1 == 99) s!"process {e.label - 5000} died of an unexpected internal error at {e.time}" ++
     fail (e.tag == "recv" && arg e 1 == 1 && arg e 2 == 99) s!"process {e.label - 5000} received an unexpected internal error at {e.time}") ++
     fail (o.crash.headD 0 == 99 || (o.crash.headD 0 == 3 && (o.crash.drop 1).contains 99)) s!"the run ended with an unexpected internal error {o.crash}"
-  waits ++ intr ++ once ++ untilC ++ internal
+  -- J6: "a Process is an event that fires when its generator ends; every process waiting for it has its exception raised": a
+  -- process that ends by raising E while another process waits for it (directly, and nobody interrupts that waiter) fails as an
+  -- *event*; the waiter receives E (and thereby defuses it) before the event's callbacks could re-raise it, so E does not end the run
+  let lostFailure := if o.crash == [] then [] else procs.flatMap (fun pr =>
+    match (ofLabel o (5000 + pr.proc)).find? (·.1.tag == "pyend") with
+    | some e =>
+      if arg e.1 0 == 1 && e.1.args.drop 1 == o.crash then
+        procs.flatMap (fun q =>
+          let mine := ofLabel o (5000 + q.proc)
+          let interrupted := o.events.any (fun c => c.tag == "pyintr" && arg c 0 == q.proc)
+          let waiting := mine.any (fun y => y.1.tag == "pyyield" && arg y.1 1 == pr.idx && y.2 < e.2 &&
+            !(mine.any (fun r => (r.1.tag == "recv" && arg r.1 0 == arg y.1 0 && r.2 > y.2) || (r.1.tag == "pyend" && r.2 < e.2))))
+          fail (q.proc != pr.proc && waiting && !interrupted)
+            s!"process {pr.proc} ended at {e.1.time} by raising {o.crash} while process {q.proc} was waiting for it: the failure ended the run instead of being raised in the waiter")
+      else []
+    | none => [])
+  waits ++ intr ++ once ++ untilC ++ internal ++ lostFailure
 
 /-! ### C13 - pipes: the fluid model replayed over the implementation's trace -/
 
